@@ -60,6 +60,25 @@ def reach(F, fn, depth=3):
     return list(seen.values())
 
 
+ONCE_COMBINATORS = ("core::result::Result::map", "core::result::Result::and_then", "core::result::Result::map_or", "core::result::Result::map_or_else",
+                    "core::option::Option::map", "core::option::Option::and_then", "core::option::Option::map_or", "core::option::Option::map_or_else",
+                    "core::result::Result::inspect", "core::option::Option::inspect")
+
+
+def once_closures(F, fn):
+    """closures of fn handed to a Result/Option combinator: they run (at most) once, on the success value, exactly where
+    the combinator is called - for the successful executions the summaries describe they are straight-line code"""
+    from core import strip
+    out = {}
+    for bb, t in fn.body.calls():
+        if callee_key(t["f"]) in ONCE_COMBINATORS:
+            for a in t["args"][1:]:
+                e = strip(fn.body.expr_of_op(a))
+                if e[0] == "agg" and e[1] == "closure":
+                    out[e[2]] = bb
+    return out
+
+
 def path_effects(F, fn, adt=None, depth=0):
     """set of (net, low) over all Ok paths of fn: net stack effect and lowest prefix sum (how many existing
     populations the path consumes at most); None when an operation sits in a loop"""
@@ -116,11 +135,19 @@ def path_effects(F, fn, adt=None, depth=0):
             if bb in inloop:
                 return None
             ops[bb] = eff
-    # closures performing stack operations (rare): give up
+    # closures performing stack operations: straight-line when handed to a run-once combinator, otherwise give up
+    once = once_closures(F, fn)
     for g in F.closures_of(fn.key):
-        for bb, t in g.body.calls():
-            if callee_key(t["f"]) in (POPS + "push", POPS + "pop", POPS + "try_pop"):
+        if not any(callee_key(t["f"]) in (POPS + "push", POPS + "pop", POPS + "try_pop") for bb, t in g.body.calls()):
+            continue
+        if g.key in once and once[g.key] not in inloop and depth < 3:
+            sub = path_effects(F, g, adt, depth + 1)
+            if sub is None:
                 return None
+            cb = once[g.key]
+            ops[cb] = {(d + n, min(dl, d + low)) for (d, dl) in ops.get(cb, {(0, 0)}) for (n, low) in sub}
+            continue
+        return None
     memo = {}
     onstack = set()
 
@@ -168,7 +195,14 @@ def summarize(F, fn):
             k = callee_key(t["f"])
             ks = callee_keys(t["f"])
             if k in (POPS + "push", POPS + "pop", POPS + "try_pop"):
-                unconditional = enclosing_loop(body, bb) is None and must_pass(body, 0, lambda b: b == bb, excluded_blocks=errs) is None and f.kind != "Closure"
+                in_once = False
+                if f.kind == "Closure" and f.parent:
+                    pf = F.fn_opt(f.parent)
+                    oc = once_closures(F, pf) if pf is not None else {}
+                    if f.key in oc:
+                        pb = pf.body
+                        in_once = enclosing_loop(pb, oc[f.key]) is None and must_pass(pb, 0, lambda b, x=oc[f.key]: b == x, excluded_blocks=c03.err_blocks(pb)) is None
+                unconditional = enclosing_loop(body, bb) is None and must_pass(body, 0, lambda b: b == bb, excluded_blocks=errs) is None and (f.kind != "Closure" or in_once)
                 if not unconditional:
                     s.exact = False
                     s.notes.append("%s in %s is conditional or in a loop" % (k.split("::")[-1], f.key.split("::")[-1]))
